@@ -387,6 +387,9 @@ func (e sortedStates) Less(i int, j int) bool {
 	if e[i].Level > e[j].Level {
 		return true
 	}
+	if e[i].Level < e[j].Level {
+		return false
+	}
 	return e[i].ID < e[j].ID
 }
 
